@@ -289,14 +289,16 @@ def run(tier, seed):
             for t in sorted(set(REG) | set(got)):
                 rep.check(rid, got.get(t) == REG.get(t), "type 0x%02x -> %s" % (t, REG.get(t)), "ext_header.c", "registry has %s" % (got.get(t),), function="ext_header_types",
                           obj="type%02x" % t)
-        lk = mod.fn("ext_header_for_num")
-        if lk:
-            M = Matcher(lk)
-            # lookup compares the descriptor's num with the requested type byte
-            F = ctx.facts(lk)
-            okm = any(M.find_fact(("eq", ("load", ("field", "LHAExtHeaderType", "num", ANY)), ("param", 0)), F.on_edge(b.id, s))[0] is not None
-                      for b in lk.blocks for s in b.succs)
-            rep.check(rid, okm, "lookup matches descriptor.num against the type byte", lk.file, None, function=lk.cname, obj="lookup")
+        # dispatch: for every one of the 256 type bytes, which decoder lha_ext_header_decode hands the data to - decided by evaluating the
+        # dispatcher over the (never written, R3/C15.R1) registry in the singleton domain, whatever shape the lookup has
+        dsp = rep.need(rid, mod.fn("lha_ext_header_decode"), "function lha_ext_header_decode")
+        if dsp:
+            from ..exthdr import evaluate_dispatch
+            wrong, incon = evaluate_dispatch(mod, dsp, REG)
+            if incon:
+                rep.broken(rid, "dispatcher not evaluable for type 0x%02x: %s" % incon[0])
+            rep.check(rid, not wrong and not incon, "dispatch of all 256 type bytes: registered types reach their decoder iff data_len >= min_len, every other type is skipped",
+                      "%s:%s" % (dsp.file, dsp.line), "; ".join(wrong[:4]) if wrong else None, function=dsp.cname, obj="dispatch")
         for dn, ref in EFFECTS.items():
             fn = rep.need(rid, mod.fn(dn), "function " + dn)
             if not fn:
